@@ -242,8 +242,10 @@ pub fn zfind(req: &Req) -> R<String> {
 		let a2 = ((sd as f64) * (z as f64) + (m as f64)) as f32;
 		// (fused vs unfused in f32 differ on a fair share of all z and are not interesting by themselves; the evaluations through f64 differ
 		// from their f32 counterparts on about one z in 2^30)
+		// (on these z the fused evaluation through f64 lands on an f32 midpoint and ties to even - which is also what the UNFUSED f32 evaluation
+		// does there, so a1 == c2 != c1 on every such z: an oracle has to know which evaluation the implementation uses elsewhere)
 		let _ = (a2, c2);
-		if a1.to_bits() != c1.to_bits() {
+		if a1.to_bits() != c1.to_bits() && !out.contains(&z.to_bits().to_string()) {
 			out.push(z.to_bits().to_string());
 			if out.len() >= max {
 				break;
